@@ -9,6 +9,19 @@ import sqimpl
 
 OUT = os.path.join(os.path.dirname(HERE), 'lean', 'SqGen', 'Generated.lean')
 
+# stdlib modules that cannot touch files, processes, the network, the import system or compile / run code
+SAFE_MODULES = {'typing', 'abc', 'dataclasses', 'decimal', 'math', 'functools', 'contextlib', 'copy', 'collections', 'itertools',
+                'operator', 'enum', 'numbers', 'fractions', 'string', 're', 'bisect', 'heapq', 'unicodedata', 'time', 'datetime',
+                'random', 'regex', 'statistics', 'textwrap', 'json', 'struct', 'array', 'weakref', 'reprlib', 'difflib'}
+# Python builtins that compute on their arguments only (no I/O, no reflection on names, no code execution): which of them a
+# file calls is not recorded
+HARMLESS_BUILTINS = {'abs', 'all', 'any', 'bool', 'bytes', 'callable', 'chr', 'dict', 'divmod', 'enumerate', 'filter', 'float',
+                     'format', 'frozenset', 'hash', 'id', 'int', 'isinstance', 'issubclass', 'iter', 'len', 'list', 'map', 'max', 'min',
+                     'next', 'object', 'ord', 'pow', 'range', 'repr', 'reversed', 'round', 'set', 'slice', 'sorted', 'str', 'sum', 'super',
+                     'tuple', 'type', 'zip', 'KeyError', 'ValueError', 'TypeError', 'IndexError', 'LookupError', 'Exception',
+                     'AttributeError', 'StopIteration', 'ZeroDivisionError', 'ArithmeticError', 'RuntimeError', 'NotImplementedError',
+                     'property', 'staticmethod', 'classmethod', 'complex', 'bin', 'hex', 'oct', 'ascii', 'bytearray', 'memoryview'}
+
 
 def lstr(s):
     out = ['"']
@@ -81,13 +94,29 @@ def extract():
         src = open(os.path.join(pkg, fn)).read()
         tree = ast.parse(src)
         mod = fn[:-3]
+        # imports: a module without any file / process / network / import / code-execution capability counts by its NAME
+        # only (which names a file takes from `typing` is nobody's business); every other import counts by module AND name
+        mods, froms = {}, {}
         for node in ast.walk(tree):
             if isinstance(node, ast.Import):
                 for a in node.names:
-                    imports.add(a.name)
+                    root = a.name.split('.')[0]
+                    mods[(a.asname or a.name).split('.')[0]] = a.name
+                    imports.add(root if root in SAFE_MODULES else a.name)
             elif isinstance(node, ast.ImportFrom):
-                imports.add((node.module or '') + ':' + ','.join(sorted(a.name for a in node.names)))
-        # calls, with enclosing function
+                m = ('.' * node.level) + (node.module or '')
+                root = m.split('.')[0]
+                for a in node.names:
+                    froms[a.asname or a.name] = (m, a.name)
+                    if root in SAFE_MODULES:
+                        imports.add(root)
+                    elif root == 'smartquery' or node.level:
+                        imports.add('smartquery')
+                        mods[a.asname or a.name] = 'smartquery.' + a.name     # `from smartquery import lexer` binds a module
+                    else:
+                        imports.add(m + ':' + a.name)
+        # calls, with enclosing function: Python builtins by name, functions of imported modules, imported names — NOT
+        # methods of local values (renaming a local variable changes nothing)
         def walk(n, enclosing):
             for ch in ast.iter_child_nodes(n):
                 enc = enclosing
@@ -96,12 +125,17 @@ def extract():
                 if isinstance(ch, ast.Call):
                     f = ch.func
                     if isinstance(f, ast.Attribute) and isinstance(f.value, ast.Name):
-                        calls.add(f'{f.value.id}.{f.attr}')
+                        if f.value.id in mods and not mods[f.value.id].startswith('smartquery') and mods[f.value.id].split('.')[0] not in SAFE_MODULES:
+                            calls.add(f'{mod}/{mods[f.value.id]}.{f.attr}')
+                        elif f.value.id in froms and froms[f.value.id][0].split('.')[0] not in ({'smartquery', ''} | SAFE_MODULES):
+                            calls.add(f'{mod}/{froms[f.value.id][0]}:{froms[f.value.id][1]}.{f.attr}')
                         if mod == 'functions' and f.value.id == 'regex':
                             kw = {k.arg: ast.unparse(k.value) for k in ch.keywords}
                             sites.append((enc, f.attr, kw.get('timeout', '')))
-                    elif isinstance(f, ast.Name) and f.id in pybuiltins:
-                        calls.add(f.id)
+                    elif isinstance(f, ast.Name) and f.id in froms and froms[f.id][0].split('.')[0] not in ({'smartquery', ''} | SAFE_MODULES):
+                        calls.add(f'{mod}/{froms[f.id][0]}:{froms[f.id][1]}')
+                    elif isinstance(f, ast.Name) and f.id in pybuiltins and f.id not in HARMLESS_BUILTINS:
+                        calls.add(f'{mod}/{f.id}')
                 walk(ch, enc)
         walk(tree, mod)
         if mod == 'ast_ops':
